@@ -92,6 +92,8 @@ struct C15 : Prop {
 		}
 		// a slow interface: from the n-th node table row on every row is 2.1-3.5 s late (the enumeration has to wait for it)
 		if (r.chance(120)) { J bus = plan["bus"]; J td = J::arr(); J e = J::arr(); e.push((int) MSG_NODETAB); e.push((int) r.range(1, 5)); e.push((int) r.range(2100, 3500)); td.push(e); bus.set("type_delays", td); plan.set("bus", bus); }
+		// one run in five: some writes to the line take 20-80 ms (an acknowledgement that is slow to leave while the enumeration polls on)
+		if (r.chance(200)) { J bus = plan["bus"]; J sw = J::arr(); for (int i = 0, n = (int) r.range(3, 8); i < n; i++) { J e = J::arr(); e.push((int) r.range(8, 40)); e.push((int) r.range(20000, 80000)); sw.push(e); } bus.set("slow_writes", sw); plan.set("bus", bus); }
 		J se = cfg::normal_session(0, r.coin() ? 0 : (int) r.range(5, 40));
 		// table change during the enumeration: only nodes that are not configured (a configured board that vanishes is the subject of a separate,
 		// counted sub-workload below because the start-up dialogue has no timeouts for its answers)
